@@ -146,3 +146,17 @@ pub fn vx_chain<'a>(a: &'a HashSet<SocketAddr>, b: &'a HashSet<SocketAddr>) -> (
 pub fn vx_chain_difference<'a>(a: &'a HashSet<SocketAddr>, b: &'a HashSet<SocketAddr>) -> (r: Vec<&'a SocketAddr>)
     ensures exists|k: int| chain_spec(r@, a@, b@.difference(a@), k), r@.len() <= usize::MAX
 { unimplemented!() }
+
+// TRUSTED std contract: u64::pow (panics on overflow in debug builds, wraps in release: absence of overflow is an obligation)
+pub assume_specification [u64::pow] (b: u64, e: u32) -> (r: u64)
+    requires vstd::arithmetic::power::pow(b as int, e as nat) <= u64::MAX
+    ensures r == vstd::arithmetic::power::pow(b as int, e as nat);
+/// VERIFIED helper (rule R-ordmin): Ord::min on u64
+pub fn vx_min_u64(a: u64, b: u64) -> (r: u64) ensures r == (if a <= b { a } else { b }) { if a <= b { a } else { b } }
+pub proof fn lemma_pow2_small(e: nat)
+    requires 1 <= e <= 9
+    ensures 2 <= vstd::arithmetic::power::pow(2, e) <= 512
+{
+    vstd::arithmetic::power2::lemma_pow2(e);
+    vstd::arithmetic::power2::lemma2_to64();
+}
